@@ -85,9 +85,12 @@ class TInt(int):
         return hash(int(self))
 
     def __sub__(self, o):
-        if isinstance(o, int) and not isinstance(o, TInt):
+        if isinstance(o, int) and not isinstance(o, TInt) and self.tag == 'n':
             self._rec('-', o)
-            return TInt(int(self) - o, '%s-%d' % (self.tag, o), self.log)
+            return TInt(int(self) - o, '%s-%d' % (self.tag, o), self.log)      # `order = n - 1`: followed further
+        if isinstance(o, int) and not isinstance(o, TInt):
+            self._rec('-', 'expr')                                             # an affine use (order - order % step)
+            return int(self) - o
         self._rec('-', 'expr')
         return int(self) - int(o)
 
